@@ -2,6 +2,9 @@
 (* Strings the specifications must look into.  TLC strings are atomic, so a string is a        *)
 (* sequence of one-character strings: "/ab" is <<"/","a","b">> (JSON: ["/","a","b"]).          *)
 (*                                                                                              *)
+(* Every character is an ordinary one: '%' and the hex digits after it have no meaning here     *)
+(* (a path is the decoded path; nothing in this module decodes), '$' only in a rewrite template. *)
+(*                                                                                              *)
 (* Besides prefix/suffix/substring tests the module defines                                     *)
 (*   - StripPort : what Go's net.SplitHostPort does to a Host header (port ignored),            *)
 (*   - a family of regular expressions whose semantics can be written down in TLA+ and that    *)
